@@ -26,6 +26,7 @@ import ProfiVerif.Lemmas.DpLiveNRun
 import ProfiVerif.Lemmas.DpLiveMismatch
 import ProfiVerif.Lemmas.DpLiveMismatch2
 import ProfiVerif.Lemmas.DpLiveNHist
+import ProfiVerif.Lemmas.DpLiveNSilent
 
 namespace PV.C07
 open PV PV.Dp PV.Live
@@ -492,6 +493,71 @@ theorem multi_live_after_any_history {J0 : JointN} {ps0 : List Peripheral} {k : 
   refine ⟨J', os, ps', h2, hN', ?_⟩
   intro hk l hl
   exact h3 (by rw [hfp, hlen]; exact hk) l (by rw [hlen]; exact hl)
+
+/-- In a fault-free continuation with `KN` non-broadcast turns every slot's pair has had at least
+`max_retry_limit + 8` fault-free visits (and nothing else). -/
+theorem multi_visit_count {J : JointN} {ps : List Peripheral} {k : Nat} (hN : NGood J ps k)
+    (nows : List Int) (ht : ∀ t ∈ nows, timeB t) :
+    ∃ J' os, ∃ ps' : List Peripheral, J.quietTurns nows = some (J', os) ∧ NGood J' ps' k ∧
+      (KN J.fp ps.length ≤ nonBroadcast os → ∀ l, l < ps.length →
+        ∃ v evs, K J.fp ≤ v ∧ (pjAt J.fp ps J.ss l).quiet v = some (pjAt J.fp ps' J'.ss l, evs)) := by
+  obtain ⟨J', os, ps', hq, hN', _, hlen', hlen, c, hv, hcount⟩ := quietTurnsN_progress nows ht hN
+  refine ⟨J', os, ps', hq, hN', ?_⟩
+  intro hk l hl
+  have hpos : posOf ps.length J'.m.cycle ≤ ps.length := by
+    rcases hN'.cycle with h | ⟨i, h, hi⟩
+    · rw [h]; exact Nat.le_refl _
+    · rw [h]; simp only [posOf]; omega
+  obtain ⟨v, evs, hquiet, hvc⟩ := hv l hl
+  refine ⟨v, evs, ?_, hquiet⟩
+  unfold KN at hk
+  rcases count_bound hcount hpos hk with h | ⟨h1, h2, h3⟩
+  · unfold ind at hvc; split at hvc <;> split at hvc <;> omega
+  · rw [h2, h3] at hvc
+    simp only [ind, hl, if_true, Nat.not_lt_zero, if_false] at hvc
+    omega
+
+/-- **multi_offline_once** (the second half of C07 for several peripherals).  Turns under a fault plan by
+address (`runF`: what happens to an exchange depends on the station addressed; the other slots may be
+served, lose telegrams or get substituted replies in any way).  If every exchange addressed to slave `l`
+is lost — slave `l` is silent — then, whatever the other slots do, the pair of slot `l` sees exactly `v`
+lost requests and nothing else (independence), hence: no event while `v ≤ max_retry_limit + 1 - retry`,
+then exactly one `Offline` event and never another one, `is_live()` false from then on (the offline
+peripheral is re-probed every other visit, `offline_reported_once`). -/
+theorem multi_offline_once {J : JointN} {ps : List Peripheral} {k : Nat} (hN : NGood J ps k) {l : Nat}
+    (hl : l < ps.length) (hlive : (ps.getD l default).isLive = true) (F : List (Int × (UInt8 → Delivery)))
+    (hok : PlanOk F) (hsil : ∀ x ∈ F, x.2 (J.ss.getD l default).cfg.address = .lossReq) :
+    ∃ J' v evs, ∃ ps' : List Peripheral, J.runF F = some J' ∧ NGood J' ps' k ∧
+      (pjAt J.fp ps J.ss l).run (List.replicate v (.visit false .lossReq)) = some (pjAt J.fp ps' J'.ss l, evs) ∧
+      evs = (if J.fp.maxRetry + 2 - (ps.getD l default).retry ≤ v then [.offline] else []) ∧
+      ((ps'.getD l default).isLive = false ↔ J.fp.maxRetry + 2 - (ps.getD l default).retry ≤ v) := by
+  obtain ⟨J', ps', v, h1, hN', _, _, _, evs0, hr⟩ := silent_slot F hok hN hl hsil
+  obtain ⟨j', evs, h2, h3, h4⟩ := offline_reported_once (hN.ok l hl).1 hlive v
+  rw [hr] at h2
+  simp only [Option.some.injEq, Prod.mk.injEq] at h2
+  obtain ⟨rfl, rfl⟩ := h2
+  exact ⟨J', v, evs0, ps', h1, hN', hr, h3, h4⟩
+
+/-- **multi_online_again.**  When the slave of an offline peripheral answers again (fault-free
+continuation for all slots), the events of that slot's pair are `Online`, `Configured`, then only
+`DataExchanged` / `Diagnostics`, and it is running — within `KN` non-broadcast turns like every other slot. -/
+theorem multi_online_again {J : JointN} {ps : List Peripheral} {k : Nat} (hN : NGood J ps k) {l : Nat}
+    (hl : l < ps.length) (hoff : (ps.getD l default).isLive = false) (nows : List Int) (ht : ∀ t ∈ nows, timeB t) :
+    ∃ J' os, ∃ ps' : List Peripheral, J.quietTurns nows = some (J', os) ∧ NGood J' ps' k ∧
+      (KN J.fp ps.length ≤ nonBroadcast os →
+        ∃ v rest, (pjAt J.fp ps J.ss l).quiet v = some (pjAt J.fp ps' J'.ss l, .online :: .configured :: rest) ∧
+          (∀ e ∈ rest, e = .dataExchanged ∨ e = .diagnostics) ∧ (ps'.getD l default).isRunning = true) := by
+  obtain ⟨J', os, ps', hq, hN', hcount⟩ := multi_visit_count hN nows ht
+  refine ⟨J', os, ps', hq, hN', ?_⟩
+  intro hk
+  obtain ⟨v, evs, hv, hquiet⟩ := hcount hk l hl
+  have hv8 : 8 ≤ v := by unfold K at hv; omega
+  obtain ⟨j', rest, h1, h2⟩ := online_configured_again (hN.ok l hl).1 (hN.ok l hl).2 hoff hv8
+  obtain ⟨j'', evs', h3, h4⟩ := live_from_everywhere (hN.ok l hl).1 (hN.ok l hl).2 (n := v) hv
+  rw [hquiet] at h1 h3
+  simp only [Option.some.injEq, Prod.mk.injEq] at h1 h3
+  refine ⟨v, rest, by rw [hquiet, h1.2], h2, ?_⟩
+  rw [← h3.1] at h4; exact h4
 
 /-! ## Outside the scope: a configuration that does not match
 
